@@ -610,6 +610,7 @@ fn parse_args(a: &[String]) -> Args {
             "--fault-free" => out.flags.fault_free = true,
             "--print-trace" => out.print_trace = true,
             "--lite" => out.lite = true,
+            "--uninit" => ops::UNINIT_BUFFERS.store(true, std::sync::atomic::Ordering::Relaxed),
             "--records" => out.records = true,
             other if !other.starts_with("--") => out.file = Some(other.to_string()),
             other => {
